@@ -177,7 +177,10 @@ def build_dataset(idx: int, variant: int = 0) -> xarray.Dataset:
             dv["dummy_ji"] = xarray.DataArray(z((2, 2)), dims=["j", "i"])
     if f["std8"]:
         for n in ("y_centre", "x_centre", "y_left", "x_left", "y_back", "x_back", "y_grid", "x_grid"):
-            dv[n] = xarray.DataArray(z((2, 2)), dims=["a_" + n[2:], "b_" + n[2:]])
+            # the eight geometry variables are there as data variables, some of them as coordinates (what a `coordinates`
+            # attribute on a data variable makes of them on opening), or all of them as coordinates
+            tgt = coords if (variant % 3 == 2 or (variant % 3 == 1 and n.endswith("centre"))) else dv
+            tgt[n] = xarray.DataArray(z((2, 2)), dims=["a_" + n[2:], "b_" + n[2:]])
     if f["meshvar"]:
         attrs = {"cf_role": "mesh_topology", "node_coordinates": "nx ny", "face_node_connectivity": "fn"}
         if f["topo2"]:
